@@ -245,13 +245,9 @@ def make_ref(expr):
     else:
         assert 0  # unreachable
 
-    # When orig_ref_name is None, referencing the expression has been
-    # disabled. The expression reference name is generated anyway
-    # because it is used as a part of a parent expression, however,
-    # we'll skip registering such names.
-    if ref_name is None:
-        return ref
-
+    # Auto-generated names are registered as well: printers key their
+    # bookkeeping by reference name, so two different expressions must
+    # never end up with the same generated name.
     return expr.context._register_reference(expr, ref)
 
 
